@@ -1,8 +1,10 @@
 """Kani back end: run proof harnesses / function-contract proofs on the scratch copy of the real crate."""
+import fcntl
 import json
 import os
 import re
 import time
+from contextlib import contextmanager
 
 from common import KANI_TARGET, Undecided, env_offline, run
 
@@ -13,6 +15,21 @@ def _env():
     e = env_offline({"CARGO_TARGET_DIR": KANI_TARGET})
     e.pop("RUSTFLAGS", None)
     return e
+
+
+@contextmanager
+def kani_lock():
+    """cargo-kani keeps one set of goto binaries per crate in the shared target directory; two checks working on
+    different scratch copies would overwrite each other's files while CBMC reads them. One cargo-kani at a time
+    (each invocation already runs its harnesses in parallel)."""
+    os.makedirs(KANI_TARGET, exist_ok=True)
+    f = open(os.path.join(KANI_TARGET, ".verif-kani.lock"), "w")
+    fcntl.flock(f, fcntl.LOCK_EX)
+    try:
+        yield
+    finally:
+        fcntl.flock(f, fcntl.LOCK_UN)
+        f.close()
 
 
 def run_harnesses(scratch, package, harnesses, timeout_s, jobs, log, extra=None):
@@ -35,7 +52,8 @@ def run_harnesses(scratch, package, harnesses, timeout_s, jobs, log, extra=None)
     log("kani: " + " ".join(cmd))
     # overall guard: all harnesses could run one after the other in the worst case
     overall = 240 + timeout_s * (1 + (len(harnesses) - 1) // max(1, jobs)) + 60
-    rc, out, secs, timed_out = run(cmd, cwd=scratch.path, env=_env(), timeout=overall)
+    with kani_lock():
+        rc, out, secs, timed_out = run(cmd, cwd=scratch.path, env=_env(), timeout=overall)
     with open(os.path.join(scratch.base, f"kani-{package}.log"), "w") as f:
         f.write(out)
     results = {}
@@ -127,7 +145,8 @@ def concrete_playback(scratch, package, harness, timeout_s, log):
     cmd = ["cargo", "kani", "-p", package] + KANI_FLAGS + ["-Z", "concrete-playback", "--concrete-playback=inplace",
                                                           "--harness-timeout", f"{int(timeout_s)}s",
                                                           "--harness", harness]
-    rc, out, secs, to = run(cmd, cwd=scratch.path, env=_env(), timeout=timeout_s + 300)
+    with kani_lock():
+        rc, out, secs, to = run(cmd, cwd=scratch.path, env=_env(), timeout=timeout_s + 300)
     test = None
     values = []
     check_desc = None
@@ -150,7 +169,8 @@ def concrete_playback(scratch, package, harness, timeout_s, log):
         return {"values": [], "test": None, "reproduced": None,
                 "output": "kani produced no concrete counterexample\n" + out[-1500:]}
     cmd = ["cargo", "kani", "playback", "-Z", "concrete-playback", "-p", package, "--", test, "--nocapture"]
-    rc, out2, secs2, to2 = run(cmd, cwd=scratch.path, env=_env(), timeout=900)
+    with kani_lock():
+        rc, out2, secs2, to2 = run(cmd, cwd=scratch.path, env=_env(), timeout=900)
     reproduced = None
     if re.search(r"test result: FAILED|panicked at", out2):
         reproduced = True
